@@ -459,6 +459,58 @@ def l4_case(args):
     return args[:5], errs
 
 
+def l4_joint_case(args):
+    """two experiments in ONE invocation (a --bam_list file): the statistics block the log prints for each experiment equals the record
+    counts of that experiment's own input, and so does its __not_aligned line"""
+    (sb1, sc1, n1), (sb2, sc2, n2), threads, scratch = args
+    from vlib import syn, run, vpool
+    w1, exp1, st1 = placement_world(sb1, sc1, n1)
+    w2, exp2, st2 = placement_world(sb2, sc2, n2)
+    d = os.path.join(scratch, "c05j_%s_%s_%d_%s_%s_%d_%d" % (sb1 or "0", sc1 or "0", n1, sb2 or "0", sc2 or "0", n2, threads))
+    shutil.rmtree(d, ignore_errors=True)
+    # the reference is the union of the planted sites of both worlds
+    w = dict(w1, sites=[list(x) for x in sorted(set(tuple(x) for x in w1["sites"] + w2["sites"]))])
+    paths = syn.materialise(dict(w, reads=None), d)
+    seqs = syn.genome_sequences(w)
+    bams = [syn.write_bam(w, os.path.join(d, "E%d.bam" % (i + 1)), reads=ww["reads"], seqs=seqs) for i, ww in enumerate((w1, w2))]
+    cfg = os.path.join(d, "in.list")
+    with open(cfg, "w") as f:
+        for i, b in enumerate(bams):
+            f.write("#E%d\n%s\n" % (i + 1, b))
+    out = os.path.join(d, "out")
+    argv = ["--output", out, "--reference", paths["ref"], "--bam_list", cfg, "--data_type", "nanopore", "--threads", str(threads),
+            "--genedb", paths["gtf"], "--complete_genedb", "--no_model_construction"]
+    hook = (lambda: vpool.install(None)) if threads > 1 else None
+    rc = run.run_isoquant(argv, paths["home"], os.path.join(d, "o.txt"), pre_hook=hook)
+    errs = []
+    if rc != 0:
+        errs.append(("joint:run-failed", "exit %d: %s" % (rc, open(os.path.join(d, "o.txt")).read()[-300:])))
+        shutil.rmtree(d, ignore_errors=True)
+        return args[:3], errs
+    log = open(os.path.join(out, "isoquant.log")).read()
+    blocks = re.findall(r"overall alignment statistics:(.*?)(?:Finishing|No reads|Loading)", log, re.S)
+    if len(blocks) != 2:
+        errs.append(("joint:log-stat-blocks", "%d statistics blocks in the log of a run with two experiments" % len(blocks)))
+    for i, (blk, st, exp) in enumerate(zip(blocks, (st1, st2), (exp1, exp2))):
+        stats = dict((k, int(v)) for k, v in re.findall(r" - INFO - (\w+): (\d+)", blk))
+        for k, v in st.items():
+            if stats.get(k, 0) != v:
+                errs.append(("joint:log-stat:" + k, "experiment %d of 2: log says %s: %s, its input has %d such records" % (i + 1, k, stats.get(k), v)))
+        try:
+            h, rows = run.parse_counts(run.find(out, "E%d" % (i + 1), ".gene_counts.tsv"))
+            na = rows.get("__not_aligned")
+            if na is not None and abs(float(na[0][0]) - st["unaligned"]) > 1e-9:
+                errs.append(("joint:not-aligned-line", "experiment %d of 2: __not_aligned = %s, its input has %d unmapped records" % (i + 1, na[0][0], st["unaligned"])))
+            bed_names = set(b["name"] for b in run.parse_bed(run.find(out, "E%d" % (i + 1), ".corrected_reads.bed")))
+            lost_hash = set(n for n in exp - bed_names if n.startswith("#"))
+            if bed_names | lost_hash != exp:
+                errs.append(("joint:reported-set:bed", "experiment %d of 2 reports %s, reads passing the documented filters %s" % (i + 1, sorted(bed_names), sorted(exp))))
+        except Exception as e:  # noqa
+            errs.append(("joint:output-unreadable", repr(e)))
+    shutil.rmtree(d, ignore_errors=True)
+    return args[:3], errs
+
+
 # ------------------------------------------------------------------------------------------------ L5 MAPQ filter matrix
 MAPQS = (0, 1, 4, 5, 6, 9, 10, 11, 60)
 MAPQ_OPTS = [(), ("--min_mapq", "5"), ("--min_mapq", "10"), ("--inconsistent_mapq_cutoff", "0"), ("--inconsistent_mapq_cutoff", "10"),
@@ -636,6 +688,15 @@ def run(ctx):
     ctx.note("L4 record placement: %d pipeline runs (every subset of {reported primary, supplementary, filtered secondary, filtered MAPQ-0 primary} "
              "on unannotated chromosomes)" % len(pj))
     jobs = jobs + pj
+    # ordered pairs of experiments in one invocation
+    halves = [("", "", 0), ("PSXQU", "P", 2), ("SX", "QU", 1), ("U", "", 0)] if quick else \
+        [(sb, sc, n) for sb in ("", "PSXQU", "SX", "U", "PQ") for sc in ("", "P", "QU") for n in (0, 2)]
+    jj = [(a, b, threads, ctx.scratch) for a in halves for b in halves if a != b for threads in ((1,) if quick else (1, 2))]
+    for key, errs in core.pmap(l4_joint_case, jj):
+        for kk, msg in errs:
+            ctx.violation("l4:%s" % kk, "experiments %r then %r in one invocation, threads %d: %s" % (key + (msg,)), {"joint": [list(key[0]), list(key[1]), key[2]]})
+    ctx.note("L4 joint: %d pipeline runs with two experiments each (ordered pairs of record-kind placements)" % len(jj))
+    jobs = jobs + jj
     qj = [(oi, annotated, mode, ctx.scratch) for oi in range(len(MAPQ_OPTS)) for annotated in (1, 0)
           for mode in (("default",) if quick else ("default", "high_memory"))]
     for key, errs in core.pmap(l5_case, qj):
@@ -661,6 +722,10 @@ def replay(ctx, case):
         return bad[0][2] if bad else None
     if "mapq_case" in case:
         key, errs = l5_case(tuple(case["mapq_case"]) + (ctx.scratch,))
+        return errs[0][1] if errs else None
+    if "joint" in case:
+        a, b, t = case["joint"]
+        key, errs = l4_joint_case((tuple(a), tuple(b), t, ctx.scratch))
         return errs[0][1] if errs else None
     if "placement" in case:
         key, errs = l4_case(tuple(case["placement"]) + (ctx.scratch,))
